@@ -169,9 +169,125 @@ def mutate(rng, case, j):
     return gen_case(rng, "m%d" % j, n=6, small=True)
 
 
+# ---------------------------------------------------------------------------------------
+# stream `pkt`: packet headers, datagram splitting, transport parameters
+# ---------------------------------------------------------------------------------------
+
+def param_ops(rng, role):
+    ps = pc.rand_params(rng, role)
+    fields = []
+    for pid, v in ps.items():
+        fields += pc.param_fields(pid, pc.PARAMS[pid], v)
+    order = list(ps.items())
+    rng.shuffle(order)
+    blob = b""
+    for pid, v in order:
+        if rng.random() < 0.15:     # unknown ids must be skipped (reserved 31*N+27 and a random large one)
+            blob += pc.varint(rng.choice([27, 58, 0x1234567])) + pc.varint(3) + b"abc"
+        blob += pc.encode_param(pid, pc.PARAMS[pid], v)
+    expected = []
+    for pid in sorted(ps):
+        expected += pc.param_fields(pid, pc.PARAMS[pid], ps[pid])
+    raw = []
+    for pid in sorted(ps):
+        enc = pc.encode_param(pid, pc.PARAMS[pid], ps[pid])
+        idl = len(pc.varint(pid))
+        # value bytes = after id and length
+        ln = enc[idl] >> 6
+        lsz = 1 << ln
+        raw += [pid, 2] + pc.pb(enc[idl + lsz:])
+    return [((14, [role] + fields), ("PE", raw)), ((13, [role, blob]), ("PD", expected))]
+
+
+def gen_pkt_case(rng, name, n=8):
+    ops, meta = [], []
+    for _ in range(n):
+        r = rng.random()
+        if r < 0.3:
+            for op, m in param_ops(rng, rng.randint(0, 1)):
+                ops.append(op)
+                meta.append(m)
+            continue
+        kind, f = pc.rand_header(rng)
+        wire = pc.encode_header(kind, f)
+        ops.append((12, [kind] + f))
+        meta.append(("HE", kind, f, wire))
+        if kind in (pc.H_VN, pc.H_RETRY):
+            ops.append((10, [8, wire]))
+            meta.append(("HD", kind, f, len(wire), len(wire)))
+        else:
+            dl = f[1] if kind == pc.H_ONE_RTT else 8
+            pkt, off = pc.data_packet(rng, kind, f, rng.choice([20, 21, 40, 1200]))
+            ops.append((10, [dl, pkt]))
+            meta.append(("HD", kind, f, len(pkt), off))
+            if kind != pc.H_ONE_RTT and rng.random() < 0.6:
+                # coalesced: a second packet follows in the same datagram
+                k2, f2 = pc.rand_header(rng, kind=rng.choice([pc.H_HANDSHAKE, pc.H_ZERO_RTT, pc.H_ONE_RTT, pc.H_INITIAL]))
+                dl2 = f2[1] if k2 == pc.H_ONE_RTT else rng.randint(0, 20)
+                pkt2, off2 = pc.data_packet(rng, k2, f2, rng.choice([20, 33]))
+                ops.append((11, [dl2, pkt + pkt2]))
+                meta.append(("HR", [(kind, len(pkt), off), (k2, len(pkt2), off2)]))
+    return Case(name, ops, meta={"m": meta})
+
+
+def pkt_oracle(case, obs):
+    meta = case.meta.get("m")
+    if meta is None:
+        return None
+    if len(obs) != len(case.ops):
+        return "length: %d observations for %d ops (%s)" % (len(obs), len(case.ops), obs[-1] if obs else "")
+    for k, (m, line) in enumerate(zip(meta, obs)):
+        if line.startswith("!"):
+            return "abnormal: op %d -> %s" % (k, line)
+        v = [int(x) for x in line.split()]
+        if m[0] == "HE":
+            kind, f, wire = m[1], m[2], m[3]
+            if v[0] != 0 or bytes(v[2:]) != wire:
+                return "hdr-enc: op %d header kind %d bytes differ from the reference encoding" % (k, kind)
+            if v[1] != -1 and v[1] != len(wire):
+                return "hdr-size: op %d header kind %d declared size %d, wrote %d" % (k, kind, v[1], len(wire))
+        elif m[0] == "HD":
+            kind, f, total, off = m[1], m[2], m[3], m[4]
+            if v[:4] != [0, kind, total, off]:
+                return "pkt-dec: op %d packet kind %d total %d offset %d decoded as %s" % (k, kind, total, off, v[:4])
+            if v[4:] != list(f):
+                return "hdr-dec: op %d header kind %d decoded to different fields" % (k, kind)
+        elif m[0] == "HR":
+            exp = []
+            for (kind, total, off) in m[1]:
+                exp += [0, kind, total, off]
+            if v != exp:
+                return "coalesced: op %d datagram split as %s expected %s" % (k, v, exp)
+        elif m[0] == "PE":
+            if v != [0] + m[1]:
+                return "param-enc: op %d put_parameters wrote a different parameter set" % k
+        elif m[0] == "PD":
+            if v != [0] + m[1]:
+                return "param-dec: op %d valid parameters decoded to %s..." % (k, v[:8])
+    return None
+
+
+def pkt_hist(case):
+    lab = []
+    for t, a in case.ops:
+        lab.append({10: "be_packet", 11: "reader", 12: "put_header:%s" % a[0], 13: "params-dec", 14: "params-enc"}.get(t, "?"))
+    return lab
+
+
+def gen_pkt(rng, tier):
+    n = 800 if tier == "quick" else 20000
+    return [gen_pkt_case(rng, "p%d" % i) for i in range(n)]
+
+
 STREAMS = [{
     "name": "codec", "pkg": "hb", "bin": "impl_codec",
     "gen": gen, "oracle": oracle, "nontrivial": nontrivial, "hist": hist, "mutate": mutate,
     "profiles": ("debug",), "profiles_thorough": ("debug", "release"),
     "rule": RULE,
+}, {
+    "name": "pkt", "pkg": "hb", "bin": "impl_pkt",
+    "gen": gen_pkt, "oracle": pkt_oracle, "nontrivial": lambda c: len(c.ops) >= 4, "hist": pkt_hist,
+    "mutate": lambda rng, case, j: gen_pkt_case(rng, "m%d" % j, n=3),
+    "profiles": ("debug",), "profiles_thorough": ("debug", "release"),
+    "rule": "headers of all six kinds with cid lengths 0..20, tokens 0..200 bytes, coalesced datagrams, valid parameter sets for both roles in random order with unknown ids interleaved",
 }]
